@@ -1,7 +1,8 @@
 (* C08 - Indicators inside a Hexital behave exactly like the same indicators standalone. *)
 From Coq Require Import ZArith List String Bool.
 From Hexital Require Import Base.Prelude Base.Num Model.Manager Model.Candle Model.Readings Model.Engine
-  Model.Hexital Proofs.FrameProofs Proofs.HexitalProofs.
+  Model.Hexital Model.Analysis Proofs.FrameProofs Proofs.HexitalProofs Proofs.AnalysisProofs Proofs.CausalProofs
+  Proofs.SimProofs Proofs.NonInterference.
 Import ListNotations.
 
 (* A member that has a timeframe (manager) of its own: appending to the Hexital is exactly
@@ -25,3 +26,19 @@ Theorem C08_members_do_not_alter_shared_candles :
   calculate O (top O k name rnd) st = Ok st' -> frame O (tree_names O FUEL (top O k name rnd)) st st'.
 Proof. exact calculate_frame. Qed.
 Print Assumptions C08_members_do_not_alter_shared_candles.
+
+(* Members that share a manager, read half: a member B without helper series behaves like the
+   standalone B.  Side 1 of a paired history is the shared manager's candle list (the other
+   members calculate, purge, recompute on it - anything within the frame of their own trees),
+   side 2 the list of a standalone B fed the same candles; B's entry on every candle is the same
+   on both sides and calculate() raises on one side exactly when it raises on the other
+   (C13_leaf_noninterference, restated for the container). *)
+Theorem C08_leaf_member_equals_standalone :
+  forall (O : NumOps) (B : ind O) (others : list (bool * string)),
+  i_subs O B = [] /\ i_managed O B = [] -> i_sub O B = false -> leaf_kind O (i_kind O B) = true ->
+  has_dot (i_name O B) = false -> foreign O B others ->
+  forall shared alone : store O, Paired O B others shared alone ->
+  map (fun c => alist_get (i_name O B) (inds O (p c))) shared = map (fun c => alist_get (i_name O B) (inds O (p c))) alone /\
+  (forall e, calculate O B shared = Err e <-> calculate O B alone = Err e).
+Proof. intros O B others Hl Ht Hk Hn Hf s1 s2 HP. eapply noninterference; eassumption. Qed.
+Print Assumptions C08_leaf_member_equals_standalone.
